@@ -7,7 +7,10 @@ import (
 	"os"
 	"path/filepath"
 	"strings"
+	"time"
 
+	"github.com/scrapli/scrapligo/driver/generic"
+	"github.com/scrapli/scrapligo/driver/network"
 	"github.com/scrapli/scrapligo/driver/opoptions"
 	"github.com/scrapli/scrapligo/driver/options"
 	"github.com/scrapli/scrapligo/response"
@@ -45,7 +48,7 @@ type c13Case struct {
 
 func genC13(r *sim.Rng) *c13Case {
 	c := &c13Case{}
-	c.Variant = r.Pick([]string{"commands", "commands", "each", "fromfile"})
+	c.Variant = r.Pick([]string{"commands", "commands", "each", "fromfile", "netconfigs", "netconfig", "netcommands"})
 	c.Stop = r.Bool()
 	nd := r.Intn(4)
 	for i := 0; i < nd; i++ {
@@ -150,7 +153,19 @@ func runC13Case(id string, c *c13Case) {
 		dev.Outputs = append(dev.Outputs, sim.Atoms([]byte(strings.ReplaceAll(o, "\n", "\r\n"))))
 	}
 	tr := sim.NewTransport(dev)
-	d, err := newGeneric(tr, options.WithFailedWhenContains(c.DrvF))
+	var d *generic.Driver
+	var nd *network.Driver
+	var err error
+	if strings.HasPrefix(c.Variant, "net") {
+		// the network driver's variants (the prompt router# is its privilege-exec level; configs are
+		// sent there with the operation's privilege-level option, so no mode change is involved)
+		nd, err = newNetworkSimple(tr, 20*time.Microsecond, options.WithFailedWhenContains(c.DrvF), options.WithTimeoutOps(5*time.Second))
+		if nd != nil {
+			d = nd.Driver
+		}
+	} else {
+		d, err = newGeneric(tr, options.WithFailedWhenContains(c.DrvF))
+	}
 	cs := &Case{ID: id, Kind: c.Variant, HypOK: true, Replay: c}
 	cs.Line = fmt.Sprintf("c13 %s %s %s %s %s", b2i(c.Stop), hxStrs(c.OpF), hxStrs(c.DrvF),
 		hxStrs(c.Cmds), hxStrs(c.Outs))
@@ -160,13 +175,22 @@ func runC13Case(id string, c *c13Case) {
 		emit(cs)
 		return
 	}
-	if err = d.Open(); err != nil {
+	if nd != nil {
+		err = nd.Open()
+	} else {
+		err = d.Open()
+	}
+	if err != nil {
 		cs.Obs = "open-error " + errClass(err)
 		cs.Oracle = "open failed: " + err.Error()
 		emit(cs)
 		return
 	}
-	defer d.Close()
+	if nd != nil {
+		defer nd.Close()
+	} else {
+		defer d.Close()
+	}
 	var opts []util.Option
 	if c.Stop {
 		opts = append(opts, opoptions.WithStopOnFailed())
@@ -196,9 +220,16 @@ func runC13Case(id string, c *c13Case) {
 		cs.Kind += "+pre"
 	}
 	var m *response.MultiResponse
+	var collapsed *response.Response
 	switch c.Variant {
 	case "commands":
 		m, err = d.SendCommands(c.Cmds, opts...)
+	case "netcommands":
+		m, err = nd.SendCommands(c.Cmds, opts...)
+	case "netconfigs":
+		m, err = nd.SendConfigs(c.Cmds, append(opts, opoptions.WithPrivilegeLevel("privilege-exec"))...)
+	case "netconfig":
+		collapsed, err = nd.SendConfig(strings.Join(c.Cmds, "\n"), append(opts, opoptions.WithPrivilegeLevel("privilege-exec"))...)
 	case "fromfile":
 		f := filepath.Join(workDir(), id+".cmds")
 		_ = os.WriteFile(f, []byte(strings.Join(c.Cmds, "\n")+"\n"), 0o644)
@@ -224,6 +255,11 @@ func runC13Case(id string, c *c13Case) {
 		cs.Oracle = "unexpected error: " + err.Error()
 		cs.Sig = "C13:error:" + errClass(err)
 		emit(cs)
+		return
+	}
+	if c.Variant == "netconfig" {
+		cs.Line = ""
+		runC13Collapsed(cs, c, collapsed, dev, preSent)
 		return
 	}
 	// ---- observables
@@ -319,5 +355,50 @@ func runC13Case(id string, c *c13Case) {
 		cs.Sig = "C13:multi"
 	}
 	cs.Nontrivial = anyFailed && len(c.Cmds) > 1
+	emit(cs)
+}
+
+// runC13Collapsed: the oracle for network SendConfig — "a collapsed config response reports the
+// same": failed exactly when a member (a line's output, under the list in force) is, its result the
+// lines' outputs joined by newlines, transmission as for SendConfigs.  (Oracle only: the collapse
+// is C13_collapse / C13_send_config_is_source on the model side.)
+func runC13Collapsed(cs *Case, c *c13Case, r *response.Response, dev *sim.CLIDevice, preSent int) {
+	eff := c.DrvF
+	if len(c.OpF) > 0 {
+		eff = c.OpF
+	}
+	expectSent := 0
+	anyFailed := false
+	var outs []string
+	for i := range c.Cmds {
+		expectSent++
+		outs = append(outs, c.Outs[i])
+		f := false
+		for _, s := range eff {
+			if s != "" && strings.Contains(c.Outs[i], s) {
+				f = true
+			}
+		}
+		if f {
+			anyFailed = true
+			if c.Stop {
+				break
+			}
+		}
+	}
+	sent := dev.NonEmptyLines()[preSent:]
+	cs.Obs = fmt.Sprintf("collapsed failed=%v sent=%d result=%s", r.Failed != nil, len(sent), hx([]byte(r.Result)))
+	cs.Nontrivial = anyFailed && len(c.Cmds) > 1
+	switch {
+	case (r.Failed != nil) != anyFailed:
+		cs.Oracle = fmt.Sprintf("collapsed config response failed=%v, but some line's output contains a failure string in force=%v (in force: %q)", r.Failed != nil, anyFailed, eff)
+		cs.Sig = "C13:collapse-failed"
+	case r.Result != strings.Join(outs, "\n"):
+		cs.Oracle = fmt.Sprintf("collapsed result %q is not the lines' outputs joined by newlines %q", r.Result, strings.Join(outs, "\n"))
+		cs.Sig = "C13:collapse-result"
+	case len(sent) != expectSent:
+		cs.Oracle = fmt.Sprintf("expected %d config lines sent, device saw %d", expectSent, len(sent))
+		cs.Sig = "C13:stop"
+	}
 	emit(cs)
 }
